@@ -30,10 +30,12 @@ def parse_dec_exact(text):
     """value of a decimal string as the contract reads it, or None when this oracle does not judge it: beyond 28
     digits / 96 bits the implementation's parser rounds; that reading is the model's business (Dec.dec_parse,
     compared case by case in the correspondence), not the oracles'"""
-    digits = text.replace("_", "").lstrip("+-").replace(".", "")
+    t = text.replace("_", "").lstrip("+-")
+    digits = t.replace(".", "")
     if not digits.isdigit():
         return None
-    return parse_dec(text) if len(digits) <= 28 and int(digits) < 2 ** 96 else None
+    decimals = len(t.partition(".")[2])
+    return parse_dec(text) if decimals <= 28 and int(digits) < 2 ** 96 else None
 
 
 def addr_ok(s):
@@ -227,6 +229,10 @@ def project(prop, b, ev, ctx):
         if is_exec and sub == "execute_match":
             return (None, ok)
     elif prop == "C04":
+        if k == "MIGRATE":
+            # what a later cancel / expire / reject has to return is fixed by the book the migration leaves behind
+            return (ok, (tuple(sorted(ask_amounts(a) for a in b.asks.values())),
+                         tuple(sorted(bid_amounts(x) for x in b.bids.values()))))
         if is_exec and sub in REVERSE:
             ai, bi = ev.ids()
             val = (flows(b, ev), tuple(sorted(repr(shape(m)) for m in b.msgs)),
@@ -426,8 +432,7 @@ class Oracle:
             def judged(text):
                 # beyond 28 digits / 96 bits the implementation's parser rounds; that reading is the model's business
                 # (Dec.dec_parse, compared case by case), not this oracle's
-                digits = text.replace("_", "").lstrip("+-").replace(".", "")
-                return parse_dec(text) if len(digits) <= 28 and int(digits or "0") < 2 ** 96 else None
+                return parse_dec_exact(text)
             p, ap, bp = judged(fmt.dec(ev.args[2])), judged(a.price), judged(b.price)
             if self.cfg is not None and ev.sender not in self.cfg.executors:
                 out.append((None, "match by a non-executor"))
